@@ -5,7 +5,11 @@ package reader
 import (
 	"sync/atomic"
 
+	"github.com/milvus-io/milvus/pkg/util/lock"
+	"github.com/milvus-io/milvus/pkg/util/typeutil"
+
 	"github.com/zilliztech/milvus-cdc/core/api"
+	"github.com/zilliztech/milvus-cdc/core/util"
 )
 
 // VerifYieldFunc is called at the instrumented points of innerHandleReplicateMsg:
@@ -24,5 +28,19 @@ func SetVerifYield(f VerifYieldFunc) {
 func verifYield(point string, targetPChannel string, src *api.ReplicateMsg, out *api.ReplicateMsg) {
 	if p, _ := verifYieldFn.Load().(*VerifYieldFunc); p != nil && *p != nil {
 		(*p)(point, targetPChannel, src, out)
+	}
+}
+
+// ResetTSManagerForVerif replaces the process-wide ts manager by a fresh one: what a process restart does to it.
+// Only to be called while no replication is running (the harness simulates a restart inside one test process).
+func ResetTSManagerForVerif() {
+	GetTSManager()
+	tsInstance = &tsManager{
+		retryOptions:       tsInstance.retryOptions,
+		lastTS:             util.NewValue[uint64](0),
+		rateLog:            tsInstance.rateLog,
+		channelTS2:         typeutil.NewConcurrentMap[string, *tsInfo](),
+		channelTSLocks:     lock.NewKeyLock[string](),
+		targetChannelChans: typeutil.NewConcurrentMap[string, chan string](),
 	}
 }
